@@ -28,7 +28,9 @@ META = {
                   'changing parameter types (int/float/str/None/tuples of different lengths/entity instances/dates), '
                   'chained filter/where/order_by on shared base queries, queries over queries and QueryResults, the '
                   'same text on two Databases with different schemas, in-session modifications with and without '
-                  'flush/commit, raw SQL and adapt_sql in five styles. Every step is judged by warm==cold (exact) and '
+                  'flush/commit, aggregates and fetch/limit/page with differently spelled keyword arguments (distinct absent/None/'
+                  'False/True, sep, query-level distinct()/without_distinct()), raw SQL and adapt_sql in five styles. '
+                  'Every step is judged by warm==cold (exact) and '
                   'by a python reference where defined. Exploration: histories are sampled.',
     'level_note': 'Trusted: clearing a cache is semantically neutral (that is the property itself, applied to the cold '
                   'run), sqlite3, the data mirror for the python reference; dict subclasses that count lookups are '
@@ -432,7 +434,11 @@ def exec_step(env, step):
                     probe = [sql, norm(list(arguments.values()) if isinstance(arguments, dict) else arguments)]
                 except Exception as ex: probe = ['exc', type(ex).__name__]
             if step.get('post') is None: return ('ok', 'O', 'built', probe)
-            tag, val = apply_post(env, q, step['post'], E)
+            try: tag, val = apply_post(env, q, step['post'], E)
+            except HarnessError: raise
+            except Exception as ex:
+                if probe is None: raise
+                return ('exc', type(ex).__name__, probe)      # the query was stored all the same: keep its identity
             return ('ok', tag, val, probe)
         if k == 'qr_make':
             q = env.queries.get(step['slot'])
@@ -1070,7 +1076,7 @@ def base_vars_of(step, env_slots):
 def run(ctx):
     from pony.orm import core
     quick = ctx.tier == 'quick'
-    n_hist = 1200 if quick else 2500           # per shard
+    n_hist = 1200 if quick else 1800           # per shard
     tmp = ctx.tmp()
     warm = Env(ctx, 'warm', tmp)
     cold = Env(ctx, 'cold', tmp)
@@ -1239,7 +1245,7 @@ def run(ctx):
                 # (b) the session result cache (and nothing else) is stale, stably, and on this Database a raw DML
                 #     statement (db.execute) ran in this session with no ORM-level modification or commit after it (those
                 #     discard cached results; events of the other Database do not touch this session cache)
-                mine = [e for e, d in warm.event_log if d == step.get('db') or e == 'commit']
+                mine = [e for e, d in warm.event_log if step.get('db') is None or d == step.get('db') or e == 'commit']
                 if 'raw_dml' in mine:
                     after = mine[len(mine) - mine[::-1].index('raw_dml'):]
                     if not any(e in ('set', 'create', 'delete', 'bulk_delete', 'commit') for e in after):
